@@ -2,13 +2,14 @@ package main
 
 import (
 	"bytes"
-	"time"
 	"fmt"
 	"io"
+	"math/rand"
 	"runtime"
 	"strings"
 	"sync"
 	"sync/atomic"
+	"time"
 
 	rs "github.com/klauspost/reedsolomon"
 )
@@ -190,6 +191,120 @@ func opConcStream(a []string) string {
 	return "ok"
 }
 
+// slowReader delivers its data in small pieces with a pause before each: a straggler among the shard streams of one call
+type slowReader struct {
+	data []byte
+	pos  int
+}
+
+func (s *slowReader) Read(p []byte) (int, error) {
+	time.Sleep(150 * time.Microsecond)
+	runtime.Gosched()
+	if s.pos >= len(s.data) {
+		return 0, io.EOF
+	}
+	n := copy(p, s.data[s.pos:min(len(s.data), s.pos+97)])
+	s.pos += n
+	return n, nil
+}
+
+// concstreamf <d> <p> <B> <L> <n> <gomaxprocs> <rounds>: ONE StreamEncoder with concurrent I/O; n healthy callers run
+// Encode+Verify for several rounds while a faulty caller keeps calling Encode with stream 0 failing at once and the other
+// streams slow: its error must be reported, and the healthy callers' answers must stay right (a failed call must not
+// leave readers behind that still write into a pooled block another caller receives)
+func opConcStreamF(a []string) string {
+	d, p, B, L, n, gmp, rounds := atoi(a[0]), atoi(a[1]), atoi(a[2]), atoi(a[3]), atoi(a[4]), atoi(a[5]), atoi(a[6])
+	old := runtime.GOMAXPROCS(gmp)
+	defer runtime.GOMAXPROCS(old)
+	enc, err := newStream(d, p, B, "c", "-")
+	if err != nil {
+		return "err " + errClass(err)
+	}
+	res := make([]string, n+1)
+	var wg, hw sync.WaitGroup
+	start := make(chan struct{})
+	stop := make(chan struct{})
+	// the faulty caller
+	wg.Add(1)
+	go func() {
+		defer wg.Done()
+		<-start
+		set := encodedSet(d, p, L, 77)
+		res[n] = "ok"
+		for {
+			select {
+			case <-stop:
+				return
+			default:
+			}
+			rds := make([]io.Reader, d)
+			rds[0] = &fragReader{data: set[0], failAt: 0, rng: rand.New(rand.NewSource(1))}
+			for i := 1; i < d; i++ {
+				rds[i] = &slowReader{data: set[i]}
+			}
+			ws := make([]io.Writer, p)
+			for j := range ws {
+				ws[j] = io.Discard
+			}
+			if err := enc.Encode(rds, ws); err == nil {
+				res[n] = "fault-accepted"
+				return
+			}
+		}
+	}()
+	for g := 0; g < n; g++ {
+		wg.Add(1)
+		hw.Add(1)
+		go func(g int) {
+			defer wg.Done()
+			defer hw.Done()
+			<-start
+			res[g] = "ok"
+			for r := 0; r < rounds && res[g] == "ok"; r++ {
+				set := encodedSet(d, p, L, uint64(1000+g*131+r))
+				rds := make([]io.Reader, d)
+				for i := range rds {
+					rds[i] = bytes.NewReader(set[i])
+				}
+				ws := make([]io.Writer, p)
+				bufs := make([]*bytes.Buffer, p)
+				for j := range ws {
+					bufs[j] = &bytes.Buffer{}
+					ws[j] = bufs[j]
+				}
+				if err := enc.Encode(rds, ws); err != nil {
+					res[g] = "err " + errClass(err)
+					return
+				}
+				for j := range bufs {
+					if !bytes.Equal(bufs[j].Bytes(), set[d+j]) {
+						res[g] = "wrong-parity"
+						return
+					}
+				}
+				all := make([]io.Reader, d+p)
+				for i := range all {
+					all[i] = bytes.NewReader(set[i])
+				}
+				if ok, err := enc.Verify(all); err != nil || !ok {
+					res[g] = "verify-failed"
+					return
+				}
+			}
+		}(g)
+	}
+	close(start)
+	hw.Wait() // the healthy callers are done: stop the faulty one
+	close(stop)
+	wg.Wait()
+	for _, r := range res {
+		if r != "ok" {
+			return r
+		}
+	}
+	return "ok"
+}
+
 // concver <fam> <opts> <d> <p> <size> <n> <ms>: n goroutines call Verify (and some Encode) on ONE encoder, each on its own
 // valid shard set, for ms milliseconds; every verdict must be (true, nil)
 func opConcVer(a []string) string {
@@ -260,6 +375,7 @@ func init() {
 	extraOps["conc"] = opConc
 	extraOps["concread"] = opConcRead
 	extraOps["concstream"] = opConcStream
+	extraOps["concstreamf"] = opConcStreamF
 	_ = rs.ErrShardSize
 }
 
